@@ -172,6 +172,19 @@ Definition mx_parse_int (s : mx_bytes) : option Z :=
       else mx_digits s 0%Z
   end.
 
+(* Value -> long as Convert::ToLong does it for a string (lexical_cast<double>, then truncation), reduced to
+   what set_if needs - "is the result non-zero" - and to plain decimal notation: optional sign, digits with
+   an optional '.', at least one digit.  Exponents, "inf" and "nan" are not modelled. *)
+Fixpoint mx_all_digits (s : mx_bytes) : bool :=
+  match s with [] => true | c :: t => (48 <=? c) && (c <=? 57) && mx_all_digits t end.
+Fixpoint mx_some_nonzero (s : mx_bytes) : bool :=
+  match s with [] => false | c :: t => negb (c =? 48) || mx_some_nonzero t end.
+Definition mx_parse_truth (s : mx_bytes) : option bool :=
+  let body := match s with c :: t => if (c =? 45) || (c =? 43) then t else s | [] => s end in
+  let '(ip, fp) := match mx_split_at mx_ch_dot body with Some (a, b) => (a, b) | None => (body, []) end in
+  if mx_all_digits ip && mx_all_digits fp && negb (Nat.eqb (List.length ip + List.length fp) 0)
+  then Some (mx_some_nonzero ip) else None.
+
 (* upper-case hexadecimal without prefix (std::hex << std::uppercase) *)
 Definition mx_hexdigit (d : N) : N := if d <? 10 then 48 + d else 55 + d.
 Fixpoint mx_hex_aux (fuel : nat) (n : N) (acc : mx_bytes) : mx_bytes :=
